@@ -823,6 +823,30 @@ func (ev *SpecEnv) call(n *Node) Val {
 			es = c.sortFor(x.Ty.Underlying().(*types.Slice).Elem())
 		}
 		return Val{T: sx("select", ev.hget(c.elemHeap(es)), slArr(x.T)), S: arraySort(bvSort(64), es)}
+	case "elems_unchanged_since_entry":
+		// every backing array allocated before the function was entered still has its entry contents
+		ty := ex.resolveType(n.Args[0].String(), ev.pkg)
+		h := c.elemHeap(c.sortFor(ty))
+		r := fmt.Sprintf("q!r!%d", ex.counter.Add(1))
+		old := h
+		if v, ok := ev.st.entry[h]; ok {
+			old = v
+		}
+		return Val{T: fmt.Sprintf("(forall ((%s Ref)) (! (=> (alive0 %s) (= (select %s %s) (select %s %s))) :pattern ((select %s %s))))", r, r, ev.hget(h), r, old, r, ev.hget(h), r), S: sortBool, Ty: tb}
+	case "elems_unchanged_in_loop":
+		// every backing array that existed when the enclosing loop was entered still has the contents it had then
+		ty := ex.resolveType(n.Args[0].String(), ev.pkg)
+		h := c.elemHeap(c.sortFor(ty))
+		r := fmt.Sprintf("q!r!%d", ex.counter.Add(1))
+		old := h
+		if v, ok := ev.st.loopHeap[h]; ok {
+			old = v
+		}
+		alts := []string{sx("alive0", r)}
+		for _, f := range ev.st.loopFresh {
+			alts = append(alts, sx("=", r, f))
+		}
+		return Val{T: fmt.Sprintf("(forall ((%s Ref)) (! (=> %s (= (select %s %s) (select %s %s))) :pattern ((select %s %s))))", r, smtOr(alts...), ev.hget(h), r, old, r, ev.hget(h), r), S: sortBool, Ty: tb}
 	case "elem_ref":
 		// elem_ref(s, i): the object identity (&s[i]) of element i of a slice of structs
 		x := ev.eval(n.Args[0])
